@@ -188,7 +188,56 @@ class Interp:
             args = [self_obj] + list(args)
         return self.call_closure(clo, list(args), kwargs or {})
 
+    # generator functions (opt-in, `eager_generators = True`): run eagerly, a call returns the list of yielded
+    # values.  Sound where the consumer does not change the state that the generator reads between two yields
+    # (the traversal / extraction helpers of ufl.corealg.traversal and ufl.algorithms.analysis).
+    eager_generators = False
+    _GEN_CACHE: dict = {}
+
+    @staticmethod
+    def _is_generator(node):
+        r = Interp._GEN_CACHE.get(id(node))
+        if r is None:
+            r = False
+            if isinstance(node, (ast.FunctionDef, ast.AsyncFunctionDef)):
+                stack = list(node.body)
+                while stack:
+                    n = stack.pop()
+                    if isinstance(n, (ast.Yield, ast.YieldFrom)):
+                        r = True
+                        break
+                    if isinstance(n, (ast.FunctionDef, ast.AsyncFunctionDef, ast.Lambda, ast.ClassDef)):
+                        continue
+                    stack.extend(ast.iter_child_nodes(n))
+            Interp._GEN_CACHE[id(node)] = r
+        return r
+
+    def e_Yield(self, e, env, mod):
+        if not self.eager_generators or not getattr(self, "_yields", None):
+            raise Unsupported("expression Yield: (yield expr)")
+        v = self.eval(e.value, env, mod) if e.value is not None else None
+        self._yields[-1].append(v)
+        return None
+
+    def e_YieldFrom(self, e, env, mod):
+        if not self.eager_generators or not getattr(self, "_yields", None):
+            raise Unsupported("expression YieldFrom")
+        for v in self.eval(e.value, env, mod):
+            self._yields[-1].append(v)
+        return None
+
     def call_closure(self, clo: Closure, args, kwargs):
+        if self.eager_generators and self._is_generator(clo.node):
+            ys = self.__dict__.setdefault("_yields", [])
+            ys.append([])
+            try:
+                self._call_closure(clo, args, kwargs)
+                return ys[-1]
+            finally:
+                ys.pop()
+        return self._call_closure(clo, args, kwargs)
+
+    def _call_closure(self, clo: Closure, args, kwargs):
         node = clo.node
         if clo.name in self.skip_functions or (clo.cls is not None and f"{clo.cls.name}.{getattr(node, 'name', '')}" in self.skip_functions):
             return None
